@@ -645,7 +645,11 @@ class CacheTaint:
         self.tainted: Dict[str, str] = {}  # function name -> why
         self.memo: Dict[tuple, Summary] = {}
         self.active: set = set()
+        self.assume: Dict[tuple, int] = {}
+        self.done_iter: set = set()
+        self.changed = False
         self.unresolved = 0
+        self.unresolved_calls: List[str] = []
 
     # -- sources ---------------------------------------------------------
     def cached_defs(self):
@@ -748,14 +752,30 @@ class CacheTaint:
         return CLEAN
 
     def _memo_level(self, cfg, e, at, seeds, depth):
-        key = ("lv", id(cfg), id(e), tuple(sorted(seeds.items())))
+        """Level of a defining expression at its own statement.  Memoised; cyclic
+        (loop-carried) definitions are solved by the caller's fixpoint iteration:
+        a node met again while it is being computed answers with the value assumed
+        so far, and ``changed`` asks for another round when an assumption grew."""
+        key = (id(cfg), id(e), tuple(sorted(seeds.items())))
+        if key in self.done_iter:
+            return self.assume.get(key, CLEAN)
         if key in self.active:
-            return CLEAN  # cyclic definition (loop-carried): the other definitions decide
+            return self.assume.get(key, CLEAN)
         self.active.add(key)
         try:
-            return self.level(cfg, e, at, seeds, depth)
+            v = self.level(cfg, e, at, seeds, depth)
         finally:
             self.active.discard(key)
+        if v > self.assume.get(key, CLEAN):
+            self.assume[key] = v
+            self.changed = True
+        self.done_iter.add(key)
+        return self.assume.get(key, CLEAN)
+
+    def new_round(self) -> None:
+        self.memo.clear()
+        self.done_iter.clear()
+        self.changed = False
 
     # -- callees ---------------------------------------------------------------
     def resolve(self, call: ast.Call):
@@ -872,7 +892,7 @@ class CacheTaint:
                 if callee is None:
                     if any(lv(a.value if isinstance(a, ast.Starred) else a, at) for a in n.args) or any(lv(k.value, at) for k in n.keywords):
                         self.unresolved += 1
-                        getattr(self, "unresolved_calls", []).append(short(n, 60))
+                        self.unresolved_calls.append(short(n, 60))
                     continue
                 g, bound = callee
                 sd = self.actual_seeds(cfg, n, g, bound, at, seeds)
@@ -898,10 +918,10 @@ def _r27c(chk) -> None:
     analysed: Dict[int, Tuple[object, ast.AST]] = {}
     changed = True
     rounds = 0
-    while changed and rounds < 6:
+    while changed and rounds < 8:
         changed = False
         rounds += 1
-        ct.memo.clear()
+        ct.new_round()
         for m in repo.modules.values():
             if not any(nm in m.text for nm in ct.tainted):
                 continue
@@ -916,10 +936,11 @@ def _r27c(chk) -> None:
                 if s.ret and f.name not in ct.tainted:
                     ct.tainted[f.name] = f"forwards a cached value ({m.relpath}::{q})"
                     changed = True
+        changed = changed or ct.changed
     chk.count("R27c.taint_sources", len(ct.tainted))
     chk.count("R27c.functions_with_cached_values", len(analysed))
     chk.floor("R27c.functions_with_cached_values", 6)
-    ct.memo.clear()
+    ct.new_round()
     ct.unresolved = 0
     ct.unresolved_calls = []
     n_events = 0
